@@ -69,6 +69,8 @@ POSITIONS = {
     "freq": ("bool", False),
     "sreq": ("bool", False),
     "virt": ("any", False),
+    "virt_fwd": ("any", False),        # the virtual field is first reached through a reference from an earlier field
+    "virt_static": ("any", False),     # ... or through a static reference Foo.probe from an earlier structure
     "parg": ("int", False),
     "pearg": ("enum:Aa", False),
     "enumval": ("int", True),
@@ -82,6 +84,7 @@ def build(pos, E):
     pre = ""
     body = ""
     extra = ""
+    prefix = ""
     if pos == "offset":
         body = "  %s [+1]  UInt  probe\n" % E
     elif pos == "size":
@@ -100,6 +103,11 @@ def build(pos, E):
         pre = "  [requires: %s]\n" % E
     elif pos == "virt":
         body = "  let probe = %s\n" % E
+    elif pos == "virt_fwd":
+        body = "  let early = probe\n  let probe = %s\n" % E
+    elif pos == "virt_static":
+        body = "  let probe = %s\n" % E
+        prefix = "struct Early:\n  0 [+1]  UInt  e\n  let early = Foo.probe\n"
     elif pos == "parg":
         body = "  8 [+1]  Par(%s)  probe\n" % E
     elif pos == "pearg":
@@ -110,7 +118,7 @@ def build(pos, E):
         extra = "enum Ee:\n  [maximum_bits: %s]\n  VV = 1\n" % E
     elif pos == "is_signed":
         extra = "enum Ee:\n  [is_signed: %s]\n  VV = 1\n" % E
-    src = HEADER + FOO % (pre, body) + extra
+    src = HEADER + prefix + FOO % (pre, body) + extra
     lines = src.split("\n")
     # locate the probe lines: those containing E inside the construct
     marks = [i + 1 for i, l in enumerate(lines) if E in l and ("probe" in l or "requires" in l or "VV" in l or
@@ -307,6 +315,8 @@ def expected(node, pos):
         v = const_value(node)
         if v is None or not (2 <= v <= 64):
             return None       # well-typed, but the value itself may be out of maximum_bits' range (C14's business)
+    if pos == "virt_static" and not all(a in ("3", "true", "Aa.AV", "Bb.BV", "im.Aa.AV") for a in _atoms(node, set())):
+        return None           # a static reference needs a constant target; only typing is compared here
     if req == "any":
         if t in ("struct", "array"):
             # `let v = st` is an alias (documented); anything else producing these types was UNSPEC above
@@ -325,7 +335,7 @@ def gen_cases(tier):
     _E[tier] = exprs
     n = len(exprs)
     for pos in POSITIONS:
-        if tier == "quick" and pos not in ("virt", "cond", "enumval"):
+        if tier == "quick" and pos not in ("virt", "cond", "enumval", "virt_fwd", "virt_static"):
             # quick: expressions that are ill-typed in themselves are placed in 4 positions only
             ids = [i for i, e in enumerate(exprs) if type_of(e) != "ERROR"]
         else:
